@@ -166,7 +166,10 @@ class Interp:
         decos = [d.id for d in node.decorator_list if isinstance(d, ast.Name)]
         use_contract = con is not None and not con.inline
         if use_contract:
-            bound = self.bind_args(node, args, kwargs, self_obj, key)
+            if type(con).bind is not C.Contract.bind:
+                bound = con.bind(self.vc, args, kwargs, self)
+            else:
+                bound = self.bind_args(node, args, kwargs, self_obj, key)
             return con.apply(self.vc, bound)
         nested_in_top = key.startswith(self.top_key + ".")
         if key in C.INLINE or (con is not None and con.inline) or nested_in_top \
@@ -530,7 +533,11 @@ class Interp:
                 val = self.eval(v.value, frame)
                 if v.format_spec is not None or v.conversion not in (-1, 115):
                     raise Unsupported("f-string format spec")
-                parts.append(self.to_str(val))
+                parts.append(val)
+        hook = getattr(C, "FSTRING_HOOK", None)
+        if hook is not None and any(isinstance(p, Struct) for p in parts):
+            return hook(self, parts)
+        parts = [p if isinstance(p, str) else self.to_str(p) for p in parts]
         from .builtins import str_concat
         res = ""
         for p in parts:
@@ -1030,6 +1037,8 @@ class Interp:
                               f"contract: for ... in {ast.unparse(node.iter)}")
         vc = self.vc
         lname = f"loop{frame_loop_ordinal(frame, node)}"
+        for n, f in lc.iter_spec(vc, frame, si):
+            vc.check(f"loop.iter#{lname}.{n}", f)
         for n, f in lc.invariant(vc, frame, 0, si):
             vc.check(f"inv.init#{lname}.{n}", f)
         branch = vc.choose(2, "loop")
